@@ -189,6 +189,16 @@ func c15Variants(src string) (base string, vs []c15Variant) {
 			two := append([]gen.Tok{}, ts...)
 			two[i].Text = mixedCase(strings.ToLower(t.Text))
 			vs = append(vs, c15Variant{gen.JoinWith(two, " "), "case:one-keyword-mixed", "kw:" + strings.ToLower(t.Text)})
+			// a capital letter from beyond ASCII whose lower case is an ASCII letter: U+0130 (capital I with dot) for i,
+			// U+212A (Kelvin sign) for k - the other letters left in lower case
+			low := strings.ToLower(t.Text)
+			for _, sub := range [][2]string{{"i", "\u0130"}, {"k", "\u212a"}} {
+				if strings.Contains(low, sub[0]) {
+					three := append([]gen.Tok{}, ts...)
+					three[i].Text = strings.Replace(low, sub[0], sub[1], 1)
+					vs = append(vs, c15Variant{gen.JoinWith(three, " "), "case:one-keyword-with-a-capital-from-beyond-ascii", "kw:" + low})
+				}
+			}
 		}
 	}
 	// `function` is an alias of `transform`
@@ -215,7 +225,7 @@ func C15(r *drv.Run) {
 	if !quick(r) {
 		ngen = 4000
 	}
-	r.Rule = "a run of blanks in front of each program that puts the lexer's 4096-byte read boundary right before, inside and right after every escape, quote, two-character operator and comment opener; truncated programs (every token prefix of the hand corpus, accepted or not) under every filler behind their last token and in front of their first; commands with an empty body in every amount form (alone, first, in the middle, last in a source) among the bases; every filler also behind the last token and before the first; valid programs as token lists (hand corpus covering every production incl. process statements/expressions, amount clauses, named loops, ranges, caseless, regex literals; repository examples; generated programs) x EVERY gap between adjacent tokens x {newline, tab run, CRLF, line comment, block comment glued, block comment with blanks, multi-line block comment, two line comments, two glued block comments, block then line comment, three comments mixed with blanks, vertical tab, form feed, block comments whose text mentions `--(` or consists of dashes and parentheses, the empty block comment, a line comment mentioning block syntax, line and block comments holding bytes that are not valid UTF-8} and - where the neighbours are not both words - removal of the whitespace (also between a number and the word behind it: digits end at the first letter); every keyword individually and all together in UPPER and MiXeD case; `function` written for its alias `transform`; leading/trailing layout; the same text, and its CR LF form, read from a file through CompileFile; a 5 MiB gap (blank lines, one block comment, line comments) between the commands of two programs, through CompileFile and through Compile; eight White_Space code points beyond ASCII (U+0085, U+00A0, U+1680, U+2000, U+2003, U+2028, U+205F, U+3000) in one gap per program, judged as a group: all of them separate tokens or none does. Oracle (metamorphic): variant accepted iff the single-blank original is, reflect.DeepEqual + canonical-dump equality of the syntax trees (hook H6), identical Run results on 3 texts (a text on which the original alone needs more than 4 000 VM steps is dropped for its variants, which run under a budget of 30 000). Non-trivial = every distinct variant whose three verdicts agreed; distinct by variant source."
+	r.Rule = "a run of blanks in front of each program that puts the lexer's 4096-byte read boundary right before, inside and right after every escape, quote, two-character operator and comment opener; truncated programs (every token prefix of the hand corpus, accepted or not) under every filler behind their last token and in front of their first; commands with an empty body in every amount form (alone, first, in the middle, last in a source) among the bases; every filler also behind the last token and before the first; valid programs as token lists (hand corpus covering every production incl. process statements/expressions, amount clauses, named loops, ranges, caseless, regex literals; repository examples; generated programs) x EVERY gap between adjacent tokens x {newline, tab run, CRLF, line comment, block comment glued, block comment with blanks, multi-line block comment, two line comments, two glued block comments, block then line comment, three comments mixed with blanks, vertical tab, form feed, block comments whose text mentions `--(` or consists of dashes and parentheses, the empty block comment, a line comment mentioning block syntax, line and block comments holding bytes that are not valid UTF-8} and - where the neighbours are not both words - removal of the whitespace (also between a number and the word behind it: digits end at the first letter); every keyword individually and all together in UPPER and MiXeD case, and individually with U+0130 for its i or the Kelvin sign for its k (capitals whose lower case is that ASCII letter); `function` written for its alias `transform`; leading/trailing layout; the same text, and its CR LF form, read from a file through CompileFile; a 5 MiB gap (blank lines, one block comment, line comments) between the commands of two programs, through CompileFile and through Compile; eight White_Space code points beyond ASCII (U+0085, U+00A0, U+1680, U+2000, U+2003, U+2028, U+205F, U+3000) in one gap per program, judged as a group: all of them separate tokens or none does. Oracle (metamorphic): variant accepted iff the single-blank original is, reflect.DeepEqual + canonical-dump equality of the syntax trees (hook H6), identical Run results on 3 texts (a text on which the original alone needs more than 4 000 VM steps is dropped for its variants, which run under a budget of 30 000). Non-trivial = every distinct variant whose three verdicts agreed; distinct by variant source."
 	r.Assumptions = []string{
 		"a block comment glued directly after '-' is not a layout change (it lexes as a different token sequence) and is not generated",
 		"the harness tokenizer's token boundaries are those of the documented lexing rules; it is only applied to programs known to be valid",
